@@ -7,18 +7,22 @@ TARGETS = ['pytezos.rpc.node.RpcNode.request', 'pytezos.rpc.node._is_transient_r
 STUBS = ['json.dumps / pformat inside log lines -> constant (log formatting is not the subject)',
          'requests.request -> scripted fake response (class chosen by solver, status code symbolic inside the class)',
          'pytezos.rpc.node.sleep -> records the delay']
-BOUNDS = 'response sequences of length <= 7 over 14 response classes (incl. two-error bodies and bodies labelled JSON that do not parse); status code any integer inside the class range'
-OUTSIDE = ['response bodies outside the 14 classes (e.g. JSON bodies that are not lists)', 'HTTP transport, timeouts raised by requests']
+BOUNDS = 'response sequences of length <= 7 over 18 response classes (incl. two-error bodies, bodies labelled JSON that do not parse, and 4xx/401/404 responses whose body looks like a transient server error); status code any integer inside the class range'
+OUTSIDE = ['response bodies outside the 18 classes (e.g. JSON bodies that are not lists)', 'HTTP transport, timeouts raised by requests']
 ASSUMPTIONS = ['transient = 5xx whose JSON errors are kind=temporary and not proto.*, or 5xx whose text mentions prevalidator.ml (as the property states)']
 
 # class -> (lo, hi, transient, kind)
-OK, C401, C404, C4XX, T_JSON, P_JSON, PROTO_T, T_TEXT, NONJSON, TEMP_THEN_PROTO, PROTO_THEN_TEMP, PERM_THEN_TEMP, BADJSON, BADJSON_T = range(14)
-NCLS = 14
+(OK, C401, C404, C4XX, T_JSON, P_JSON, PROTO_T, T_TEXT, NONJSON, TEMP_THEN_PROTO, PROTO_THEN_TEMP, PERM_THEN_TEMP, BADJSON, BADJSON_T,
+ C4XX_T_JSON, C4XX_T_TEXT, C401_T_JSON, C404_T_TEXT) = range(18)
+NCLS = 18
 CLASS_NAMES = ['200', '401', '404', '4xx', '5xx-json-temporary', '5xx-json-permanent', '5xx-json-proto-temporary',
                '5xx-prevalidator-text', '5xx-non-json', '5xx-json-[temporary,proto]', '5xx-json-[proto-temporary,temporary]',
-               '5xx-json-[permanent,temporary]', '5xx-labelled-json-invalid-body', '5xx-labelled-json-invalid-body-prevalidator-text']
+               '5xx-json-[permanent,temporary]', '5xx-labelled-json-invalid-body', '5xx-labelled-json-invalid-body-prevalidator-text',
+               '4xx-json-temporary', '4xx-prevalidator-text', '401-json-temporary', '404-prevalidator-text']
 TRANSIENT = {T_JSON, T_TEXT, PERM_THEN_TEMP, BADJSON_T}
-JSON_CLASSES = (OK, C4XX, T_JSON, P_JSON, PROTO_T, TEMP_THEN_PROTO, PROTO_THEN_TEMP, PERM_THEN_TEMP)
+JSON_CLASSES = (OK, C4XX, T_JSON, P_JSON, PROTO_T, TEMP_THEN_PROTO, PROTO_THEN_TEMP, PERM_THEN_TEMP, C4XX_T_JSON, C401_T_JSON)
+# client errors (4xx) whose body looks exactly like a transient server error: never sent again (only 5xx responses are)
+LOOKALIKE_4XX = (C4XX_T_JSON, C4XX_T_TEXT)
 MAXLEN = 7
 
 
@@ -38,7 +42,7 @@ class _Resp:
             self._json = {'seq': seq}
         elif cls == C4XX:
             self._json = [{'id': 'node.bad_request', 'kind': 'permanent', 'seq': seq}]
-        elif cls == T_JSON:
+        elif cls in (T_JSON, C4XX_T_JSON, C401_T_JSON):
             self._json = [{'id': 'node.prevalidation.busy', 'kind': 'temporary', 'seq': seq}]
         elif cls == P_JSON:
             self._json = [{'id': 'node.state.broken', 'kind': 'permanent', 'seq': seq}]
@@ -55,7 +59,7 @@ class _Resp:
                           {'id': 'node.prevalidation.busy', 'kind': 'temporary', 'seq': seq}]
         else:
             self._json = None
-        if cls in (T_TEXT, BADJSON_T):
+        if cls in (T_TEXT, BADJSON_T, C4XX_T_TEXT, C404_T_TEXT):
             self.text = f'Assert_failure src/lib_shell/prevalidator.ml:1918 seq={seq}'
         elif self._json is not None:
             self.text = _REAL_JSON.dumps(self._json)      # the body the JSON was parsed from
@@ -72,14 +76,17 @@ class _Resp:
         return self._json
 
 
+MULTI = 0     # number of nodes of the client under test (0: a plain RpcNode); set from the obligation's parameters
+
+
 def in_class(cls, s):
     if cls == OK:
         return s == 200
-    if cls == C401:
+    if cls in (C401, C401_T_JSON):
         return s == 401
-    if cls == C404:
+    if cls in (C404, C404_T_TEXT):
         return s == 404
-    if cls == C4XX:
+    if cls in (C4XX,) + LOOKALIKE_4XX:
         return 400 <= s <= 499 and s != 401 and s != 404
     return 500 <= s <= 599
 
@@ -103,7 +110,8 @@ def drive(classes, statuses):
     with patched((N.requests, 'request', fake_request), (N, 'sleep', delays.append),
                  (N, 'json', json_log_stub(N.json)), (N, 'pformat', const_stub('<pformat>'))):
         try:
-            res = N.RpcNode('http://n').request('GET', 'x')
+            client = N.RpcMultiNode(['http://n0', 'http://n1', 'http://n2'][:MULTI]) if MULTI else N.RpcNode('http://n')
+            res = client.request('GET', 'x')
             outcome = ('ok', res.seq)
         except N.RpcError as e:
             a = e.args[0] if e.args else None
@@ -136,9 +144,9 @@ def expected(classes):
     last = classes[n - 1]
     if last == OK:
         out = ('ok', n - 1)
-    elif last == C401:
+    elif last in (C401, C401_T_JSON):
         out = ('401', None)
-    elif last == C404:
+    elif last in (C404, C404_T_TEXT):
         out = ('404', None)
     else:
         out = ('err', n - 1)
@@ -197,6 +205,8 @@ def sym_bvx(P, ex):
     """The same obligation on the proxy executor (the statuses are mathematical-integer terms, the classes solver-chosen)."""
     from harness import mbv
 
+    global MULTI
+    MULTI = P.get('multi', 0)
     prefix = list(P['prefix'])
     classes, statuses = [], []
     live = True
@@ -208,11 +218,11 @@ def sym_bvx(P, ex):
             s_ = ex.int(f's{i}')
             if c == OK:
                 ex.assume(s_ == 200)
-            elif c == C401:
+            elif c in (C401, C401_T_JSON):
                 ex.assume(s_ == 401)
-            elif c == C404:
+            elif c in (C404, C404_T_TEXT):
                 ex.assume(s_ == 404)
-            elif c == C4XX:
+            elif c in (C4XX,) + LOOKALIKE_4XX:
                 ex.assume((s_ >= 400) & (s_ <= 499) & (s_ != 401) & (s_ != 404))
             else:
                 ex.assume((s_ >= 500) & (s_ <= 599))
@@ -230,6 +240,8 @@ def sym_bvx(P, ex):
 
 
 def concrete(P, w):
+    global MULTI
+    MULTI = P.get('multi', 0)
     classes = [int(c) for c in _classes(P, [w[f'c{i}'] for i in range(MAXLEN)])]
     statuses = [int(w[f's{i}']) for i in range(MAXLEN)]
     live = True
@@ -254,7 +266,14 @@ def obligations(tier):
     for p in prefixes:
         obs.append(Ob(name='retry/first=' + '+'.join(CLASS_NAMES[c] for c in p), engine='bvx', sym=sym_bvx, concrete=concrete,
                       P={'prefix': p}, timeout=300 if tier == 'quick' else 900,
-                      bounds='first responses fixed to the named classes, the remaining (up to 7 in total) symbolic over 14 classes; '
+                      bounds='first responses fixed to the named classes, the remaining (up to 7 in total) symbolic over 18 classes; '
                              'status codes symbolic inside each class',
                       targets=TARGETS, stubs=STUBS))
+    # the same rule through a multi-node client: one client request must not be sent again to another node of the pool either
+    for m in (2, 3):
+        for p in [[c] for c in nt] + [[a, b] for a in tr for b in nt]:
+            obs.append(Ob(name=f'retry/multi-node={m}/first=' + '+'.join(CLASS_NAMES[c] for c in p), engine='bvx', sym=sym_bvx, concrete=concrete,
+                          P={'prefix': p, 'multi': m}, timeout=300 if tier == 'quick' else 900,
+                          bounds=f'one request through RpcMultiNode with {m} nodes; first responses fixed to the named classes, the rest symbolic',
+                          targets=TARGETS + ['pytezos.rpc.node.RpcMultiNode.request'], stubs=STUBS))
     return obs
